@@ -209,7 +209,7 @@ def c16(tier, seed):
         'single word indices (11 bits) are not searched, only adjacent pairs; secrets are searched as 8-byte windows'])
 
 def c20(tier, seed):
-    runs = [Run('e3_sched', 'tsanrt', ['only', str(h)], label='e3_sched[tsanrt] H%d' % h) for h in ((5, 3, 4, 2, 1, 6) if tier == 'thorough' else (3, 4, 2, 1, 6))]
+    runs = [Run('e3_sched', 'tsanrt', ['only', str(h)], label='e3_sched[tsanrt] H%d' % h) for h in ((5, 3, 4, 2, 1, 6, 7, 8) if tier == 'thorough' else (3, 4, 2, 1, 6, 7, 8))]
     runs.append(Run('e3_free', 'tsan', [], label='e3_free[tsan] free-running ThreadSanitizer pass'))
     def cov(results):
         c = {'e3': {}}
@@ -235,7 +235,9 @@ def c20(tier, seed):
         return pref('c20:', 'harness:')(k)
     return check('C20', tier, seed, runs, keyfilter=kf, extra_cov=cov, post=post, parallel=True, assumptions=ASSUME_COMMON + [
         'sequentially consistent interleavings at the granularity of individual accesses to the library writable static data (sections ps_data/ps_bss); for race-free code that is all there is, and race freedom itself is decided by the exact race oracle',
-        'three harnesses: 2 threads x 4-6 calls, 3 threads x 2-3 calls, on distinct seeds with colliding language/coin; injection and feature configuration happen before the threads start',
+        'harnesses H1-H8: 2 threads x 3-6 calls, 3 threads x 2-3 calls, on distinct seeds with colliding language/coin, refused (feature not enabled) inputs next to accepted ones, libc allocator, a shared pool allocator that recycles released blocks across threads; injection and feature configuration happen before the threads start (the property promises nothing for concurrent polyseed_inject / polyseed_enable_features)',
+        'C11 atomic operations of the library are intercepted too: each is a scheduling point and a happens-before edge (acquire+release, sequentially consistent; weaker memory orders are not modelled); the race oracle is a vector-clock happens-before detector, which without atomics in the library degenerates to: any byte written by one thread and touched by another; a thread that repeats an atomic operation without effect is a spinner and yields, all threads spinning = no-progress violation',
+        'when a harness is too large at access granularity (a change added shared mutable data), it is explored completely at synchronisation granularity (atomic operations and thread ends only; sufficient for race-free code, and the race detector runs on every execution) and then at access granularity with preemption bounds 0,1,2',
         'language tables are pure read-only data and are not instrumented; libc helpers are covered by the separate free-running ThreadSanitizer pass'])
 
 CHECKS = {'C20': c20, 'C16': c16, 'C19': c19, 'C09': c09, 'C14': c14, 'C10': c10, 'C12': c12, 'C13': c13, 'C15': c15, 'C18': c18, 'C01': c01, 'C02': c02, 'C03': c03, 'C04': c04, 'C05': c05, 'C06': c06, 'C07': c07, 'C08': c08, 'C11': c11, 'C17': c17}
